@@ -20,6 +20,7 @@ import (
 // StateSummary is the typed content the statement lists, rendered comparably.
 type StateSummary struct {
 	Balances map[string]string `json:"balances"` // non-zero balances only
+	Accounts map[string]string `json:"accounts"` // every account record (address -> "zero-balance" | "funded")
 	Supply   string            `json:"supply"`
 	Nodes    map[string]string `json:"nodes"`
 	Apps     map[string]string `json:"apps"`
@@ -29,10 +30,13 @@ type StateSummary struct {
 }
 
 func Summarise(v *View) *StateSummary {
-	s := &StateSummary{Balances: map[string]string{}, Nodes: map[string]string{}, Apps: map[string]string{}, Params: map[string]string{}, Claims: map[string]string{}, Supply: v.SupplyAmt.String(), Errors: v.Errors}
+	s := &StateSummary{Balances: map[string]string{}, Accounts: map[string]string{}, Nodes: map[string]string{}, Apps: map[string]string{}, Params: map[string]string{}, Claims: map[string]string{}, Supply: v.SupplyAmt.String(), Errors: v.Errors}
 	for a, acc := range v.Accounts {
 		if !acc.Upokt.IsZero() {
 			s.Balances[a] = acc.Upokt.String()
+			s.Accounts[a] = "funded"
+		} else {
+			s.Accounts[a] = "zero-balance"
 		}
 	}
 	for a, n := range v.Validators {
@@ -163,6 +167,35 @@ func (s *Sim) checkExportImport() {
 		}
 		return "plain-account"
 	})
+	// the set of account records (balances are compared above: only presence is judged here)
+	{
+		wa, ga := map[string]string{}, map[string]string{}
+		for a, k := range want.Accounts {
+			if _, mod := modOf[a]; !mod {
+				wa[a] = k
+			}
+		}
+		for a := range got.Accounts {
+			if _, mod := modOf[a]; !mod {
+				ga[a] = wa[a]
+				if _, ok := wa[a]; !ok {
+					ga[a] = "new"
+				}
+			}
+		}
+		for _, a := range sortedAddrs(wa) {
+			if _, ok := ga[a]; !ok {
+				s.violate("C43", "accounts-differ", wa[a]+"-account-missing-after-import", fmt.Sprintf("height %d (%s): account %s (%s) exists on the exporting node and not after the import", h, shape, a, wa[a]))
+				break
+			}
+		}
+		for _, a := range sortedAddrs(ga) {
+			if ga[a] == "new" {
+				s.violate("C43", "accounts-differ", "account-appears-after-import", fmt.Sprintf("height %d (%s): account %s exists after the import only", h, shape, a))
+				break
+			}
+		}
+	}
 	report("nodes-differ", "node", want.Nodes, got.Nodes, func(k, a, b string) string { return firstFieldDiff(a, b) })
 	report("applications-differ", "application", want.Apps, got.Apps, func(k, a, b string) string { return firstFieldDiff(a, b) })
 	report("parameters-differ", "parameter", want.Params, got.Params, func(k, a, b string) string { return k })
